@@ -526,7 +526,13 @@ class Fetcher:
                             # Critical coordination waiters will be passed
                             # to user, but fetcher can just ignore those
                             continue
-                    assignment = self._subscriptions.subscription.assignment
+                    subscription = self._subscriptions.subscription
+                    assignment = (
+                        None if subscription is None else subscription.assignment
+                    )
+                    if assignment is None or not assignment.active:
+                        # The subscription changed again before we got to run
+                        continue
                 assert assignment is not None and assignment.active
 
                 # Reset consuming signal future.
